@@ -12,7 +12,8 @@ from . import engine_rec, rd_eval
 from .vlib import build, util
 
 util.ensure_repo_importable()
-from strengths import RDScript, UnitArray, UnitsSystem, rdsystem_from_dict  # noqa: E402
+from strengths import RDScript, UnitArray, UnitValue, UnitsSystem, rdsystem_from_dict  # noqa: E402
+from strengths.units import Units, quantity_units_dimensions  # noqa: E402
 from strengths import kinetics  # noqa: E402
 
 DT = Fr(1, 1024)
@@ -55,9 +56,14 @@ def _init():
     _lib = ctypes.CDLL(build.build_engine("plain"))
 
 
+# unit systems the law is also evaluated in (every third case): the rate of change is a physical quantity
+UNIT_VARIANTS = [("nm", "ms", "molecule"), ("mm", "min", "µmol"), ("dm", "s", "mol"), ("µm", "h", "nmol"), ("cm", "µs", "molecule")]
+
+
 def _impl(args):
-    d, flat, want = args
-    out = {}
+    d, flat, want, us = args
+    out = {"units": list(us) if us else None}
+    usys = UnitsSystem(space=us[0], time=us[1], quantity=us[2]) if us else UnitsSystem()
     try:
         system = rdsystem_from_dict(json.loads(json.dumps(d)))
         system.state = UnitArray([float(v) for v in flat], "molecule")
@@ -66,7 +72,7 @@ def _impl(args):
     if "kin" in want:
         for key, chem in (("kin", True), ("kinfree", False)):
             try:
-                r = kinetics.compute_dstatedt(system, apply_chemostats=chem)
+                r = kinetics.compute_dstatedt(system, apply_chemostats=chem, units_system=usys)
                 dim = r.units.dim
                 out[key] = [float(v) for v in r.convert(UnitsSystem()).value]
                 out[key + "_dim"] = [dim["space"], dim["time"], dim["quantity"]]
@@ -85,13 +91,18 @@ def _impl(args):
             os.close(r)
             try:
                 eng = build.make_engine("euler", lib=_lib)
-                script = RDScript(system=system, t_sample=[0.0], t_max=-1.0, time_step=float(DT), sampling_policy="no_sampling")
+                script = RDScript(system=system, t_sample=[UnitValue(0.0, "s")], t_max=UnitValue(-1.0, "s"), time_step=UnitValue(float(DT), "s"),
+                                  sampling_policy="no_sampling", units_system=usys)
                 eng.setup(script)
                 x0 = engine_rec.raw_state(_lib, len(flat))
                 eng.iterate()
                 x1 = engine_rec.raw_state(_lib, len(flat))
+                if us:      # the engine works in the script's units: bring the amounts back to molecules
+                    qu = Units(sys=eng._units_system, dim=quantity_units_dimensions())
+                    x0 = UnitArray(np.array(x0), qu, check_value=False).convert(UnitsSystem()).value
+                    x1 = UnitArray(np.array(x1), qu, check_value=False).convert(UnitsSystem()).value
                 eng.finalize()
-                msg = json.dumps({"x0": list(x0), "x1": list(x1)})
+                msg = json.dumps({"x0": [float(v) for v in x0], "x1": [float(v) for v in x1]})
             except BaseException as e:  # noqa
                 msg = json.dumps({"exc": repr(e)[:300]})
             with os.fdopen(w, "w") as f:
@@ -118,7 +129,8 @@ def impl_values(cases, want=("kin", "dxdtf", "euler")):
     args = []
     for m, st in cases:
         flat = [st[s][i] for s in range(len(st)) for i in range(len(st[0]))]
-        args.append((m.strengths_dict(explicit_state=False), flat, want))
+        us = UNIT_VARIANTS[(len(args) // 3) % len(UNIT_VARIANTS)] if len(args) % 3 == 2 else None
+        args.append((m.strengths_dict(explicit_state=False), flat, want, us))
     ctx = mp.get_context("fork")
     with ctx.Pool(util.NCPU, initializer=_init) as pool:
         return pool.map(_impl, args, chunksize=max(1, len(args) // (util.NCPU * 8)))
@@ -183,11 +195,13 @@ def compare(rep, cases, spec, impl, check, props=("law",)):
             rep.violation(check, "law:euler-step-" + str(im["euler_exc"])[:20], {"model": m.strengths_dict()}, replay=repl)
         elif "euler_x1" in im:
             dt = float(DT)
-            if im["euler_x0"] != x0:
+            if (im["euler_x0"] != x0) if not im.get("units") else any(abs(a - b) > 1e-12 * max(abs(a), abs(b)) for a, b in zip(im["euler_x0"], x0)):
                 rep.violation(check, "law:euler-initial-state", {"got": im["euler_x0"], "want": x0}, replay=repl)
             else:
                 got = [(a - b) / dt for a, b in zip(im["euler_x1"], im["euler_x0"])]
-                cmp("euler-step", got, L, extra_tol=[4e-16 * (abs(v) + abs(l) * dt) / dt for v, l in zip(x0, L)])
+                # (amounts converted to another unit and back carry a few more roundings)
+                ulp = 4e-16 if not im.get("units") else 2e-15
+                cmp("euler-step", got, L, extra_tol=[ulp * (abs(v) + abs(l) * dt) / dt for v, l in zip(x0, L)])
                 # chemostated entries: exactly unchanged
                 cm = m.chem_map()
                 for s in range(nS):
